@@ -79,7 +79,9 @@ impl<T: TokenStream> PreProcessor<T> {
                 if let (IfKind::Defined, false) | (IfKind::NotDefined, true) =
                     (if_kind, macro_defined)
                 {
-                    self.eat_until_else_or_endif();
+                    if !self.eat_until_else_or_endif() {
+                        return self.error("reached EOF without matching #endif");
+                    }
                 }
                 TokenKind::PreProcessor
             }
@@ -91,7 +93,9 @@ impl<T: TokenStream> PreProcessor<T> {
     }
 
     fn process_else(&mut self) -> TokenKind {
-        self.eat_until_else_or_endif();
+        if !self.eat_until_else_or_endif() {
+            return self.error("reached EOF without matching #endif");
+        }
         TokenKind::PreProcessor
     }
 
@@ -121,7 +125,9 @@ impl<T: TokenStream> PreProcessor<T> {
         }
     }
 
-    fn eat_until_else_or_endif(&mut self) {
+    /// Skips a disabled region. Returns false if the end of the input is
+    /// reached before the matching `#else` or `#endif`.
+    fn eat_until_else_or_endif(&mut self) -> bool {
         let mut depth = 1;
         loop {
             match self.token_stream.eat() {
@@ -132,11 +138,10 @@ impl<T: TokenStream> PreProcessor<T> {
                     depth -= 1;
                 }
                 T![#else] | T![#endif] if depth == 1 => {
-                    break;
+                    return true;
                 }
                 TokenKind::Eof => {
-                    self.error("reached EOF without matching #endif");
-                    break;
+                    return false;
                 }
                 _ => {}
             }
